@@ -241,6 +241,11 @@ enum Outcome {
     Query(QueryOutcomeC),
     Stats(Result<[u64; 4], String>),
     Synced(Result<(), String>),
+    IsDeleted(Result<bool, String>),
+    AddrDeleted(Result<Option<u64>, String>),
+    /// id and bytes of the holder of an address
+    Holder(Result<Option<(B32, String)>, String>),
+    GetOff(Result<String, String>),
 }
 
 #[derive(Clone, Debug, PartialEq)]
@@ -267,7 +272,7 @@ fn bytes_val(b: &[u8]) -> String {
     format!("{}B:{:016x}", b.len(), fnv1a(b))
 }
 
-fn exec_op(store: &Store, op: &Op, enc: &BTreeMap<B32, OwnedEvent>) -> Outcome {
+fn exec_op(store: &Store, op: &Op, enc: &BTreeMap<B32, OwnedEvent>, base_offsets: &BTreeMap<B32, u64>) -> Outcome {
     match op {
         Op::Store(e) => {
             let ev = enc.get(&e.id).cloned().unwrap_or_else(|| real::encode(e));
@@ -315,6 +320,44 @@ fn exec_op(store: &Store, op: &Op, enc: &BTreeMap<B32, OwnedEvent>) -> Outcome {
             Ok(Err(e)) => Err(real::err_name(&e.inner)),
             Err(p) => Err(format!("PANIC:{p}")),
         }),
+        Op::IsDeleted(id) => Outcome::IsDeleted(match real::catch(|| store.event_is_deleted(pocket_types::Id::from_bytes(*id))) {
+            Ok(Ok(b)) => Ok(b),
+            Ok(Err(e)) => Err(real::err_name(&e.inner)),
+            Err(p) => Err(format!("PANIC:{p}")),
+        }),
+        Op::AddrDeleted(a) => Outcome::AddrDeleted(match real::catch(|| store.naddr_is_deleted_asof(&real::addr_of(a))) {
+            Ok(Ok(t)) => Ok(t.map(|t| t.as_u64())),
+            Ok(Err(e)) => Err(real::err_name(&e.inner)),
+            Err(p) => Err(format!("PANIC:{p}")),
+        }),
+        Op::Holder(a) => Outcome::Holder(
+            match real::catch(|| {
+                let r = if is_replaceable(a.kind) && a.d.is_empty() {
+                    store.find_replaceable_event(pocket_types::Pubkey::from_bytes(a.pk), pocket_types::Kind::from_u16(a.kind))
+                } else {
+                    store.find_parameterized_replaceable_event(&real::addr_of(a))
+                };
+                r.map(|o| {
+                    o.map(|e| {
+                        let mut id = [0u8; 32];
+                        id.copy_from_slice(e.id().as_slice());
+                        (id, bytes_val(e.as_bytes()))
+                    })
+                })
+            }) {
+                Ok(Ok(v)) => Ok(v),
+                Ok(Err(e)) => Err(real::err_name(&e.inner)),
+                Err(p) => Err(format!("PANIC:{p}")),
+            },
+        ),
+        Op::GetOff(id) => Outcome::GetOff(match real::catch(|| match base_offsets.get(id) {
+            Some(off) => store.get_event_by_offset(*off).map(|e| bytes_val(e.as_bytes())),
+            None => Ok("no-base-offset".to_string()),
+        }) {
+            Ok(Ok(v)) => Ok(v),
+            Ok(Err(e)) => Err(real::err_name(&e.inner)),
+            Err(p) => Err(format!("PANIC:{p}")),
+        }),
         _ => Outcome::Removed(Ok(())),
     }
 }
@@ -328,6 +371,11 @@ fn outcome_label(o: &Outcome) -> String {
         Outcome::Get(r) => format!("{:?}", r),
         Outcome::Stats(r) => format!("{:?}", r),
         Outcome::Synced(r) => format!("{:?}", r),
+        Outcome::IsDeleted(r) => format!("{:?}", r),
+        Outcome::AddrDeleted(r) => format!("{:?}", r),
+        Outcome::Holder(Ok(Some((id, b)))) => format!("Ok(Some({}:{b}))", short(id)),
+        Outcome::Holder(r) => format!("{:?}", r),
+        Outcome::GetOff(r) => format!("{:?}", r),
         Outcome::Query(QueryOutcomeC::Ok(ids, red)) => format!("Ok([{}], redacted={red})", ids.iter().map(short).collect::<Vec<_>>().join(",")),
         Outcome::Query(q) => format!("{:?}", q),
     }
@@ -370,6 +418,16 @@ fn model_step(m: &mut Model, op: &Op, out: &Outcome, enc: &BTreeMap<B32, OwnedEv
         (Op::Has(id), Outcome::Has(Ok(b))) => m.retrievable.contains(id) == *b,
         (Op::Stats, Outcome::Stats(Ok(c))) => c.iter().all(|x| *x == m.retrievable.len() as u64),
         (Op::Sync, Outcome::Synced(Ok(()))) => true,
+        (Op::IsDeleted(id), Outcome::IsDeleted(Ok(b))) => m.deleted_ids.contains(id) == *b,
+        (Op::AddrDeleted(a), Outcome::AddrDeleted(Ok(t))) => m.deleted_addrs.get(a).copied() == *t,
+        (Op::Holder(a), Outcome::Holder(Ok(v))) => {
+            let hs = m.holders(a);
+            match v {
+                None => hs.is_empty(),
+                Some((id, bytes)) => hs.iter().any(|h| h.id == *id) && enc.get(id).map(|e| bytes_val(e.as_bytes())).as_ref() == Some(bytes),
+            }
+        }
+        (Op::GetOff(id), Outcome::GetOff(Ok(v))) => v == "no-base-offset" || enc.get(id).map(|e| bytes_val(e.as_bytes())).as_ref() == Some(v),
         (Op::Get(id), Outcome::Get(Ok(v))) => {
             if m.retrievable.contains(id) {
                 let want = enc.get(id).map(|e| bytes_val(e.as_bytes()));
@@ -498,16 +556,16 @@ pub fn generate(rs: u64, focus: &str) -> Trace {
     let nthreads = if crate::gen::thorough() { 2 + g.rng.weighted(&[35, 35, 30]) } else { 2 + g.rng.weighted(&[55, 30, 15]) };
     let mut threads: Vec<Vec<Op>> = vec![vec![]; nthreads];
     let scenario = match focus {
-        "C04" => g.rng.weighted(&[5, 5, 0, 10, 0, 10, 70, 0, 0, 0, 0, 0, 0, 0]),
-        "C15" => g.rng.weighted(&[5, 5, 5, 10, 0, 30, 35, 10, 0, 0, 0, 0, 0, 0]),
-        "C18" => g.rng.weighted(&[0, 0, 0, 0, 25, 10, 0, 0, 35, 0, 30, 0, 0, 0]),
-        "C09" => g.rng.weighted(&[5, 75, 0, 5, 0, 15, 0, 0, 0, 0, 0, 0, 0, 0]),
-        "C10" => g.rng.weighted(&[0, 0, 10, 0, 0, 20, 0, 70, 0, 0, 0, 0, 0, 0]),
-        "C11" => g.rng.weighted(&[0, 5, 60, 0, 0, 20, 0, 15, 0, 0, 0, 0, 0, 0]),
-        "C05" => g.rng.weighted(&[0, 30, 0, 30, 20, 20, 0, 0, 0, 0, 0, 0, 0, 1]),
-        "C12" => g.rng.weighted(&[15, 5, 0, 0, 0, 10, 0, 10, 0, 0, 0, 60, 0, 0]),
-        "C17" => g.rng.weighted(&[0, 10, 0, 0, 10, 15, 0, 0, 10, 45, 10, 0, 0, 0]),
-        _ => g.rng.weighted(&[14, 14, 10, 14, 8, 12, 8, 7, 6, 4, 3, 4, 3, 1]),
+        "C04" => g.rng.weighted(&[5, 5, 0, 10, 0, 10, 70, 0, 0, 0, 0, 0, 0, 0, 0]),
+        "C15" => g.rng.weighted(&[5, 5, 5, 10, 0, 30, 35, 10, 0, 0, 0, 0, 0, 0, 0]),
+        "C18" => g.rng.weighted(&[0, 0, 0, 0, 25, 10, 0, 0, 35, 0, 30, 0, 0, 0, 0]),
+        "C09" => g.rng.weighted(&[5, 70, 0, 5, 0, 15, 0, 0, 0, 0, 0, 0, 0, 0, 5]),
+        "C10" => g.rng.weighted(&[0, 0, 10, 0, 0, 20, 0, 65, 0, 0, 0, 0, 0, 0, 5]),
+        "C11" => g.rng.weighted(&[0, 5, 40, 0, 0, 15, 0, 10, 0, 0, 0, 0, 0, 0, 30]),
+        "C05" => g.rng.weighted(&[0, 30, 0, 30, 20, 20, 0, 0, 0, 0, 0, 0, 0, 1, 0]),
+        "C12" => g.rng.weighted(&[15, 5, 0, 0, 0, 10, 0, 10, 0, 0, 0, 60, 0, 0, 0]),
+        "C17" => g.rng.weighted(&[0, 10, 0, 0, 10, 15, 0, 0, 10, 45, 10, 0, 0, 0, 0]),
+        _ => g.rng.weighted(&[13, 13, 10, 13, 8, 12, 8, 7, 6, 4, 3, 4, 3, 1, 8]),
     };
     let known: Vec<EvSpec> = g.model.events.values().cloned().collect();
     let retr: Vec<B32> = g.model.retrievable.iter().copied().collect();
@@ -573,6 +631,14 @@ pub fn generate(rs: u64, focus: &str) -> Trace {
                 };
                 threads[t].push(Op::Query(q));
             }
+            if g.rng.chance(1, 2) {
+                // the address looked up directly, once or twice, while the versions compete
+                let t = g.rng.usize(nthreads);
+                for _ in 0..(1 + g.rng.usize(2)) {
+                    let pos = g.rng.usize(threads[t].len() + 1);
+                    threads[t].insert(pos, Op::Holder(a.clone()));
+                }
+            }
         }
         2 => {
             // a deletion request racing the store of its target (which now and then does not fit
@@ -597,6 +663,14 @@ pub fn generate(rs: u64, focus: &str) -> Trace {
                 threads[2].push(Op::Get(target.id));
                 if g.rng.chance(1, 2) {
                     threads[2].push(Op::Store(target.clone()));
+                }
+            }
+            if g.rng.chance(1, 2) {
+                // the marker polled meanwhile: once set it stays
+                let t = g.rng.usize(nthreads);
+                for _ in 0..(1 + g.rng.usize(2)) {
+                    let pos = g.rng.usize(threads[t].len() + 1);
+                    threads[t].insert(pos, Op::IsDeleted(target.id));
                 }
             }
         }
@@ -680,6 +754,15 @@ pub fn generate(rs: u64, focus: &str) -> Trace {
                 threads[t].insert(0, Op::TakeRef(id));
                 threads[t].push(Op::Get(id));
             }
+            // and somebody reads an early event by its offset while the map grows under it
+            if !g.model.offsets.is_empty() && g.rng.chance(1, 2) {
+                let ids: Vec<B32> = g.model.offsets.values().map(|(id, _)| *id).collect();
+                let t = g.rng.usize(nthreads);
+                for _ in 0..(1 + g.rng.usize(2)) {
+                    let pos = g.rng.usize(threads[t].len() + 1);
+                    threads[t].insert(pos, Op::GetOff(*g.rng.pick(&ids)));
+                }
+            }
         }
         7 => {
             // a FOREIGN deletion request racing the store of the event / address it names
@@ -706,6 +789,16 @@ pub fn generate(rs: u64, focus: &str) -> Trace {
             }
             if g.rng.chance(1, 2) {
                 threads[0].push(Op::Get(target.id));
+            }
+            if g.rng.chance(1, 2) {
+                // no marker may ever show on the victim's event or address
+                let t = g.rng.usize(nthreads);
+                let pos = g.rng.usize(threads[t].len() + 1);
+                let op = match (target.addr(), g.rng.chance(1, 2)) {
+                    (Some(a), true) => Op::AddrDeleted(a),
+                    _ => Op::IsDeleted(target.id),
+                };
+                threads[t].insert(pos, op);
             }
         }
         9 => {
@@ -840,6 +933,45 @@ pub fn generate(rs: u64, focus: &str) -> Trace {
                 threads[2].push(Op::Query(QuerySpec { authors: vec![pk], ..QuerySpec::all_allowed() }));
             }
         }
+        14 => {
+            // deletion requests for one address, with different times, racing one another and a
+            // version of the address dated between them; the deletion time is polled meanwhile: it
+            // never goes back, and what it covers stays refused
+            let mut v = g.new_version();
+            if v.addr().is_none() {
+                v.kind = if g.rng.chance(1, 2) { 10002 } else { 30017 };
+                v.tags.retain(|t| t.first().map(|x| x != "d").unwrap_or(true));
+                if v.kind >= 30000 {
+                    v.tags.insert(0, vec!["d".into(), (*g.rng.pick(&["", "x", "conc"])).to_string()]);
+                }
+            }
+            v.id = g.rng.bytes32();
+            v.at = v.at.clamp(10, u64::MAX - 10);
+            let a = v.addr().unwrap();
+            let atag = vec!["a".to_string(), format!("{}:{}:{}", a.kind, hex(&a.pk), String::from_utf8(a.d.clone()).unwrap_or_default())];
+            let nreq = 2 + g.rng.usize(2);
+            for k in 0..nreq {
+                let at = match k {
+                    0 => v.at + 2,
+                    1 => v.at - 2,
+                    _ => v.at.saturating_add(g.rng.below(5)).saturating_sub(2),
+                };
+                let del = EvSpec { id: g.rng.bytes32(), pk: a.pk, kind: 5, at, tags: vec![atag.clone()], content: vec![] };
+                threads[k % nthreads].push(Op::Store(del));
+            }
+            let t = g.rng.usize(nthreads);
+            let pos = g.rng.usize(threads[t].len() + 1);
+            threads[t].insert(pos, Op::Store(v.clone()));
+            let t = g.rng.usize(nthreads);
+            for _ in 0..(1 + g.rng.usize(3)) {
+                let pos = g.rng.usize(threads[t].len() + 1);
+                threads[t].insert(pos, if g.rng.chance(3, 4) { Op::AddrDeleted(a.clone()) } else { Op::Holder(a.clone()) });
+            }
+            if g.rng.chance(1, 3) {
+                let t = g.rng.usize(nthreads);
+                threads[t].push(Op::Store(v.clone()));
+            }
+        }
         8 => {
             // one event stored, removed and stored again by different threads
             let e = if g.rng.chance(1, 2) { g.new_event() } else { g.new_version() };
@@ -864,6 +996,16 @@ pub fn generate(rs: u64, focus: &str) -> Trace {
                 for _ in 0..n {
                     if g.rng.chance(1, 7) {
                         threads[t].push(if g.rng.chance(2, 3) { Op::Stats } else { Op::Sync });
+                        continue;
+                    }
+                    if !known.is_empty() && g.rng.chance(1, 6) {
+                        let e = g.rng.pick(&known).clone();
+                        threads[t].push(match (e.addr(), g.rng.below(4)) {
+                            (Some(a), 0) => Op::AddrDeleted(a),
+                            (Some(a), 1) => Op::Holder(a),
+                            (_, 2) if g.model.offsets.values().any(|(id, _)| *id == e.id) => Op::GetOff(e.id),
+                            _ => Op::IsDeleted(e.id),
+                        });
                         continue;
                     }
                     let op = match g.rng.weighted(&[35, 15, 10, 10, 8, 8, 14]) {
@@ -1141,7 +1283,7 @@ pub fn run_conc_full(trace: &Trace, scratch: PathBuf, verbose: bool, known_open:
                     } else {
                         vec![]
                     };
-                    let out = exec_op(store, op, enc);
+                    let out = exec_op(store, op, enc, base_offsets);
                     drop(readers);
                     ctl.release_writer_if_held(t);
                     if let (Op::Store(e), Outcome::Store(StoreOutcome::Ok(off))) = (op, &out) {
@@ -1480,7 +1622,7 @@ pub fn run_conc_full(trace: &Trace, scratch: PathBuf, verbose: bool, known_open:
     if finding.is_none() {
         for r in &sorted {
             let bad = match &r.out {
-                Outcome::Has(Err(e)) | Outcome::Get(Err(e)) | Outcome::Removed(Err(e)) | Outcome::Vanished(Err(e)) | Outcome::Stats(Err(e)) | Outcome::Synced(Err(e)) => Some(e.clone()),
+                Outcome::Has(Err(e)) | Outcome::Get(Err(e)) | Outcome::Removed(Err(e)) | Outcome::Vanished(Err(e)) | Outcome::Stats(Err(e)) | Outcome::Synced(Err(e)) | Outcome::IsDeleted(Err(e)) | Outcome::AddrDeleted(Err(e)) | Outcome::Holder(Err(e)) | Outcome::GetOff(Err(e)) => Some(e.clone()),
                 Outcome::Query(QueryOutcomeC::OtherErr(e)) | Outcome::Query(QueryOutcomeC::Panic(e)) => Some(e.clone()),
                 Outcome::Store(StoreOutcome::Other(_)) if matches!(&r.op, Op::Store(e) if model.store_expect(e).engine_refusal) => None,
                 Outcome::Store(StoreOutcome::Other(_)) if r.starved => None,
@@ -1681,7 +1823,69 @@ fn answer_invariants(base: &Model, recs: &[OpRecord]) -> Vec<(&'static str, Stri
                     }
                 }
             }
+            (Op::IsDeleted(id), Outcome::IsDeleted(Ok(true))) => {
+                // somebody entitled must have asked for it: a request of the event's author (of
+                // anybody, if nobody ever submitted the event) naming the id
+                let author = specs.get(id).map(|e| e.pk);
+                let namers: Vec<&EvSpec> = specs.values().filter(|d| d.kind == 5 && d.tags.iter().any(|t| t.len() >= 2 && t[0] == "e" && parse_e_target(&t[1]) == Some(*id))).collect();
+                let entitled = namers.iter().any(|d| author.map(|a| a == d.pk).unwrap_or(true));
+                if !entitled {
+                    if namers.is_empty() {
+                        out.push(("C11", format!("{} is reported deleted although no request names it", short(id))));
+                    } else {
+                        out.push(("C10", format!("{} is reported deleted although only requests of other authors name it", short(id))));
+                    }
+                }
+            }
+            (Op::AddrDeleted(a), Outcome::AddrDeleted(Ok(Some(t)))) => {
+                let namers: Vec<&EvSpec> = specs.values().filter(|d| d.kind == 5 && d.tags.iter().any(|t| t.len() >= 2 && t[0] == "a" && parse_a_target(&t[1]).as_ref() == Some(a))).collect();
+                if !namers.iter().any(|d| d.pk == a.pk && d.at == *t) {
+                    if namers.iter().any(|d| d.pk != a.pk && d.at == *t) {
+                        out.push(("C10", format!("the address {} is reported deleted as of {t}, the time of a request by another author", a.label())));
+                    } else {
+                        out.push(("C11", format!("the address {} is reported deleted as of {t}, the time of no request of its author", a.label())));
+                    }
+                }
+            }
+            (Op::Holder(a), Outcome::Holder(Ok(Some((id, _))))) => {
+                if let Some(e) = specs.get(id) {
+                    if e.addr().as_ref() != Some(a) {
+                        out.push(("C09", format!("the lookup of the address {} returned {}, an event of another address", a.label(), short(id))));
+                    }
+                }
+            }
             _ => {}
+        }
+    }
+    // what one thread sees one after the other: a deletion never goes away, its time never decreases
+    let nthreads = recs.iter().map(|r| r.thread + 1).max().unwrap_or(0);
+    for t in 0..nthreads {
+        let mut mine: Vec<&OpRecord> = recs.iter().filter(|r| r.thread == t).collect();
+        mine.sort_by_key(|r| r.idx);
+        let mut seen_del: BTreeSet<B32> = BTreeSet::new();
+        let mut seen_addr: BTreeMap<AddrKey, u64> = BTreeMap::new();
+        for r in mine {
+            match (&r.op, &r.out) {
+                (Op::IsDeleted(id), Outcome::IsDeleted(Ok(b))) => {
+                    if *b {
+                        let _ = seen_del.insert(*id);
+                    } else if seen_del.contains(id) {
+                        out.push(("C11", format!("thread {t} saw {} deleted and later not deleted", short(id))));
+                    }
+                }
+                (Op::AddrDeleted(a), Outcome::AddrDeleted(Ok(v))) => {
+                    let prev = seen_addr.get(a).copied();
+                    match (prev, v) {
+                        (Some(p), None) => out.push(("C11", format!("thread {t} saw the address {} deleted as of {p} and later not deleted", a.label()))),
+                        (Some(p), Some(n)) if *n < p => out.push(("C11", format!("thread {t} saw the deletion time of {} go back from {p} to {n}", a.label()))),
+                        _ => {}
+                    }
+                    if let Some(n) = v {
+                        let _ = seen_addr.insert(a.clone(), *n);
+                    }
+                }
+                _ => {}
+            }
         }
     }
     out
@@ -1757,10 +1961,13 @@ fn model_universe(base: &Model, recs: &[OpRecord]) -> Model {
                     let _ = m.offsets.insert(*off, (e.id, e.size()));
                 }
             }
-            Op::Remove(id) | Op::Get(id) | Op::Has(id) => {
+            Op::Remove(id) | Op::Get(id) | Op::Has(id) | Op::IsDeleted(id) => {
                 if !m.events.contains_key(id) {
                     let _ = m.named_ids.insert(*id);
                 }
+            }
+            Op::AddrDeleted(a) | Op::Holder(a) => {
+                let _ = m.addr_universe.insert(a.clone());
             }
             _ => {}
         }
